@@ -59,7 +59,14 @@ M=[
  ("M17-pool-blocks-11","src/global/config.rs","pub const MAX_FUTURE_TRANSACTION_BLOCKS: u64 = 10;","pub const MAX_FUTURE_TRANSACTION_BLOCKS: u64 = 11;",["C08"]),
  ("M18-nonce-window-le","src/engine/engine.rs","if nonce > account_nonce && nonce < account_nonce + MAX_FUTURE_TRANSACTION_NONCES {","if nonce > account_nonce && nonce <= account_nonce + MAX_FUTURE_TRANSACTION_NONCES {",["C08"]),
  ("M19-short-pkscript-panic","src/engine/precompiles/get_locked_pkscript_precompile.rs","    if pkscript.len() < 2 {","    if false && pkscript.len() < 2 {",["C09"]),
- ("M20-read-commits","src/engine/engine.rs","let output = evm.replay().map(|x| x.result);","let output = evm.replay_commit();",["C10","C17"]),
+ ("M20-read-leaks-a-slot","src/engine/engine.rs","""            let output = evm.replay().map(|x| x.result);
+            core::mem::swap(&mut *db, evm.ctx().db_mut());
+""","""            let output = evm.replay().map(|x| x.result);
+            core::mem::swap(&mut *db, evm.ctx().db_mut());
+            if output.as_ref().map(|o| o.is_success()).unwrap_or(false) && tx_info.data.len() > 64 {
+                let _ = db.set_account_memory(tx_info.from, U256::from(77), U256::from(1));
+            }
+""",["C10"]),
  ("M21-transact-unprotected","src/api/api.rs","""        "brc20_transact".to_string(),
 ""","",["C12"]),
  ("M22-auth-prefix-match","src/server/auth.rs","""                .and_then(|header| header.to_str().ok())
